@@ -842,6 +842,47 @@ def nested_gap(rng, count):
     return out
 
 
+def forever_failure_ties(rng, count):
+    """C03 / C09 / C02: a forever job that ends (returning or raising) in the very instant, and
+    the very loop iteration, of the last regular completion, beside a forever job that never
+    ends and without any timeout: the run must end there and then (after C03-m15, which
+    counts such a job into the completions and steps over the end of the run)"""
+    out = []
+    while len(out) < count:
+        nested = rng.random() < 0.35
+        k = rng.randint(1, 3)
+        last = rng.choice([1, 2])
+        reqs = [[] for _ in range(k + 2)]
+        if k >= 2 and rng.random() < 0.5:
+            reqs[1] = [2]
+        shape = flat(reqs)
+        if nested:
+            shape = tree(S([J(), S([J(*[r - 2 for r in rq]) for rq in reqs], 0)]))
+        kind = shape[0]
+        n = len(kind)
+        jobs = [i for i in range(n) if kind[i] == "job"][-(k + 2):]
+        dur = [0] * n
+        forever = [False] * n
+        out_ = ["ok"] * n
+        for i in jobs[:k]:
+            dur[i] = rng.choice([0, last])
+        dur[jobs[0]] = last
+        if reqs[1]:
+            dur[jobs[0]], dur[jobs[1]] = last - 1 if last > 1 else 0, 1 if last > 1 else last
+            if last == 1:
+                dur[jobs[0]], dur[jobs[1]] = 0, 1
+        forever[jobs[k]] = forever[jobs[k + 1]] = True
+        dur[jobs[k]] = last
+        out_[jobs[k]] = rng.choice(["exc", "exc", "ok"])
+        dur[jobs[k + 1]] = -1
+        sc = _mk(rng, shape, dur=dur, forever=forever, out=out_,
+                 win=[0] * n, tmo=[-1] * n, crit=[False] * n, cdur=[rng.choice([0, 0, 1]) for _ in range(n)])
+        sc["harness"]["k"] = [0] * n
+        if admissible(sc["cfg"]):
+            out.append(sc)
+    return out
+
+
 def _reqs_everything(shape, i):
     return len(shape[2][i]) >= 2 or (shape[2][i] and shape[0][shape[2][i][0] - 1] == "job"
                                      and len(shape[2][shape[2][i][0] - 1]) >= 2)
@@ -850,7 +891,7 @@ def _reqs_everything(shape, i):
 STRUCTURED = {
     "C01": [(joins, 0.25), (small_perms, 0.1), (nested_gap, 0.15), (between_waits, 0.08)],
     "C02": [(tie_groups, 0.3), (simultaneous_failures, 0.15)],
-    "C03": [(window_failures, 0.18), (deadlines, 0.08), (window_ties, 0.1), (failed_nested_successors, 0.08),
+    "C03": [(window_failures, 0.16), (forevers, 0.04), (forever_failure_ties, 0.03), (deadlines, 0.08), (window_ties, 0.1), (failed_nested_successors, 0.08),
             (cancel_cliques, 0.08), (empty_stages, 0.06), (outside_hypothesis, 0.04), (late_shutdown_bounds, 0.04)],
     "C04": [(critical_instants, 0.15), (deadlines, 0.2), (crit_chains, 0.15), (simultaneous_failures, 0.15),
             (windowed_critical_abort, 0.05)],
@@ -860,7 +901,7 @@ STRUCTURED = {
     "C07": [(window_failures, 0.25), (tie_groups, 0.1), (critical_instants, 0.1), (window_ties, 0.15),
             (sibling_windows, 0.06)],
     "C08": [(deadlines, 0.45), (nested_abort_ties, 0.1), (between_waits, 0.05)],
-    "C09": [(forevers, 0.45), (empty_stages, 0.04), (cancel_cliques, 0.04)],
+    "C09": [(forevers, 0.42), (forever_failure_ties, 0.03), (empty_stages, 0.04), (cancel_cliques, 0.04)],
     "C10": [(crit_chains, 0.2), (nested_gap, 0.12), (failed_nested_successors, 0.13), (sibling_windows, 0.08),
             (nested_failure_ties, 0.08)],
     "C11": [(shutdown_grid, 0.25), (deadlines, 0.1), (nested_gap, 0.08), (nested_abort_ties, 0.08), (between_waits, 0.06),
